@@ -11,8 +11,9 @@ import (
 
 func init() {
 	register(&property{
-		ID:  "C17",
-		Run: runC17,
+		ID:    "C17",
+		Run:   runC17,
+		Modes: []string{"deadlock"},
 		Meta: propMeta{
 			Explanation: "Static condition-variable and exclusion protocol of runtime/syncutils on all CFG paths: (1) every Cond.Wait sits in a for loop that re-tests its predicate and holds the Cond's Locker (wiring read from the constructors); (2) predicate and holder state (StarvingMutex counters, Counter.value, Stack.elements, DAGMutex registries) are accessed only under the tabled mutex; (3) wake obligations: every state change that can enable a waiter is followed on every path by Signal/Broadcast on the matching Cond unless the path crosses an edge proving nobody can wait (StarvingMutex Unlock/RUnlock, Counter Set/Update by direction, Stack Push/Pop/PopOrWait); (4) every Signal/Broadcast is issued inside, or on every path after, a critical section of the Cond's Locker (otherwise a waiter between predicate test and park misses it); (5) exclusion bookkeeping: writerActive is set only after the loop on !canWrite, readersActive++ only after the loop on writerActive, canWrite = !writerActive && readersActive == 0, pendingWriters ++/-- paired around the wait; (6) unlocking something not held panics: every decrement/clear of holder state is dominated by a guard on that state whose failing edge panics; (7) DAGMutex: registries under its mutex, entity registered before blocking, no blocking StarvingMutex acquisition while the registry mutex is held, entry removed only for the last consumer, panic when absent.",
 			NotDecided:  "absence of lost wake-ups over all arrival orders and DAG-order deadlock freedom (need a model checker); fairness",
